@@ -145,6 +145,54 @@ def server (remote : String) (reqId : String) (reqRes : Option String) (reqTo re
   | .stanzaError c => ⟨some (rep "error" none (some c)), args, some ("stanza:" ++ c), false⟩
   | .failure => ⟨none, args, some "cberr", false⟩
 
+/-! ### the stanza's own attributes (round E)
+
+`bind.go` reads the `<iq/>` that carries the request / the reply through `stanza.NewIQ`: the id,
+type, to and from of a stanza are its UNQUALIFIED attributes; an attribute with one of these local
+names in a namespace (a foreign prefix, `xml:`, a prefix bound to the stanza's own namespace) is a
+different attribute.  Later attributes overwrite earlier ones (`NewIQ` is a loop of assignments;
+well-formed XML has no duplicates).  `jid.Parse` is the parameter `pj`. -/
+
+structure Attr where
+  space : String
+  loc : String
+  value : String
+  deriving DecidableEq, Repr
+
+def Attr.own (a : Attr) : Bool := a.space == ""
+
+/-- the value of the stanza's own attribute `loc`; `none` = absent -/
+def iqField (attrs : List Attr) (loc : String) : Option String :=
+  ((attrs.filter fun a => a.own && a.loc == loc).getLast?).map (·.value)
+
+/-- the lookup `attr.Get` does: the first attribute with that LOCAL name, whatever its namespace
+(what bind.go did before the repair) -/
+def anyNsField (attrs : List Attr) (loc : String) : Option String :=
+  (attrs.find? fun a => a.loc == loc).map (·.value)
+
+def strOf : Option String → String
+  | some v => v
+  | none => ""
+
+/-- an address attribute: absent and empty are "no address", otherwise `jid.Parse` decides -/
+def addrField (pj : String → Option String) : Option String → JidField
+  | none => .absent
+  | some v => if v = "" then .absent else
+    match pj v with
+    | some c => .valid c
+    | none => .invalid
+
+/-- the receiving side on the request's start element -/
+def serverA (pj : String → Option String) (remote : String) (attrs : List Attr)
+    (reqRes : Option String) (cb : Callback) (fresh : Nat := 0) : SRes :=
+  server remote (strOf (iqField attrs "id")) reqRes (addrField pj (iqField attrs "to"))
+    (addrField pj (iqField attrs "from")) cb fresh
+
+/-- the initiating side: how a reply `{jabber:client}iq` with these attributes, this `<jid/>` and
+this error condition is classified (the request's id is `reqId`) -/
+def replyA (reqId : String) (attrs : List Attr) (jid : JidField) (errCond : Option String) : Reply :=
+  .iq (strOf (iqField attrs "id") == reqId) (strOf (iqField attrs "type")) jid errCond
+
 /-! ### many sessions on one feature value: the random source is called once per session -/
 
 structure Req where
